@@ -1246,7 +1246,7 @@ def check_C18(ctx):
 
 # ------------------------------------------------------------------ C20 -----
 def check_C20(ctx):
-    proofs_or_violation(ctx, ['Properties_C20.v'])
+    proofs_or_violation(ctx, ['Properties_C20.v'], bridge=False)
     pool = get_pool()
     rng = ctx.rng
     W = {'u8': 1, 'i8': 1, 'u16': 2, 'i16': 2, 'u32': 4, 'i32': 4, 'f32': 4, 'u64': 8, 'i64': 8, 'f64': 8}
